@@ -19,7 +19,7 @@ use linfa_hierarchical::verif_hooks_c06::{linkage_steps, linkage_steps_f32};
 use linfa_hierarchical::{HierarchicalCluster, Method};
 use linfa_kernel::{Kernel, KernelInner, KernelMethod, KernelParams, KernelType};
 use linfa_nn::{distance::L2Dist, BallTree, CommonNearestNeighbour, KdTree, LinearSearch, NearestNeighbour};
-use ndarray::{s, Array1, Array2, ShapeBuilder};
+use ndarray::{s, Array1, Array2, Axis, ShapeBuilder};
 use std::panic::{catch_unwind, AssertUnwindSafe};
 
 /// the two float types linfa kernels exist for; the oracle always works on the exactly widened values
@@ -268,6 +268,25 @@ fn same_kernel<F: Fl>(a: &Kernel<F>, b: &Kernel<F>) -> bool {
     inner && a.method == b.method
 }
 
+/// the `method` field of the kernel, parameters as bit patterns
+fn enc_method<F: Fl>(m: &KernelMethod<F>) -> String {
+    match m {
+        KernelMethod::Linear => "l".into(),
+        KernelMethod::Gaussian(e) => format!("g:{}", fl(true, *e)),
+        KernelMethod::Polynomial(c, d) => format!("p:{}:{}", fl(true, *c), fl(true, *d)),
+    }
+}
+/// the kernel carries the method it was asked for, parameters untouched (bitwise)
+fn method_kept<F: Fl>(ctx: &mut Ctx, class: &str, kernel: &Kernel<F>, km: &Km<F>) {
+    let ok = match (&kernel.method, km) {
+        (KernelMethod::Linear, Km::L) => true,
+        (KernelMethod::Gaussian(e), Km::G(w)) => e.beq(*w),
+        (KernelMethod::Polynomial(c, d), Km::P(wc, wd)) => c.beq(*wc) && d.beq(*wd),
+        _ => false,
+    };
+    ctx.require(ok, "method_kept", class, || format!("the kernel's method field is {:?}, requested {:?}", kernel.method, km.linfa()));
+}
+
 /// size / nsamples / nfeatures / is_linear / sum / column / diagonal / upper triangle of the kernel against the
 /// matrix `mat`, and the same through the borrowed kernel and its `to_owned`
 fn oracle_views<F: Fl>(ctx: &mut Ctx, class: &str, kernel: &Kernel<F>, mat: &[Vec<f64>], ci: &[usize], cols: &[Option<Vec<F>>], linear: bool) {
@@ -354,7 +373,8 @@ fn show_cols<F: Fl>(ex: bool, n: usize, ci: &[usize], cols: &[Option<Vec<F>>], o
 /// the construction wrappers of `KernelParams` (lib.rs): six `Transformer` impls and `Kernel::new`
 const FORMS: [&str; 7] = ["view", "ref_array", "ref_view", "new", "dataset", "ref_dataset", "ref_dataset_view"];
 /// memory layouts of the record matrix handed over
-const LAYS: [&str; 4] = ["c", "f", "strided", "reversed"];
+/// (`rowrev`, `colrev`: views with one negative stride; `inverted`: an owned F-order array after `invert_axis`)
+const LAYS: [&str; 7] = ["c", "f", "strided", "reversed", "rowrev", "colrev", "inverted"];
 
 #[derive(Clone, Copy, Debug)]
 struct Call {
@@ -366,7 +386,7 @@ impl Call {
         format!("form={} lay={}", FORMS[self.form], LAYS[self.lay])
     }
     fn draw(rng: &mut Rng) -> Call {
-        Call { form: rng.below(FORMS.len()), lay: if rng.coin() { 0 } else { rng.below(LAYS.len()) } }
+        Call { form: rng.below(FORMS.len()), lay: if rng.chance(1, 3) { 0 } else { rng.below(LAYS.len()) } }
     }
 }
 
@@ -386,12 +406,32 @@ fn laid_out<F: Fl>(x: &Array2<F>, lay: usize) -> Array2<F> {
             big.slice_mut(s![r0..;2, ..;2]).assign(x);
             big.slice_move(s![r0..;2, ..;2])
         }
-        _ => {
+        3 => {
             let mut big = Array2::from_elem((n, p), F::cast(7.5));
             big.slice_mut(s![..;-1, ..;-1]).assign(x);
             big.slice_move(s![..;-1, ..;-1])
         }
+        4 => {
+            let mut big = Array2::from_elem((n, p), F::cast(7.5));
+            big.slice_mut(s![..;-1, ..]).assign(x);
+            big.slice_move(s![..;-1, ..])
+        }
+        5 => {
+            let mut big = Array2::from_elem((n, p), F::cast(7.5));
+            big.slice_mut(s![.., ..;-1]).assign(x);
+            big.slice_move(s![.., ..;-1])
+        }
+        _ => {
+            // an owned column-major array whose row axis was inverted in place (negative row stride, no slicing)
+            let mut a = Array2::from_elem((n, p).f(), F::cast(7.5));
+            a.assign(&x.slice(s![..;-1, ..]));
+            a.invert_axis(Axis(0));
+            a
+        }
     };
+    if lay >= 3 && n > 1 && p > 1 {
+        assert!(out.strides().iter().any(|s| *s < 0), "layout {} carries no negative stride", LAYS[lay]);
+    }
     assert!(out.dim() == x.dim() && out.iter().zip(x.iter()).all(|(a, b)| a.beq(*b)));
     out
 }
@@ -456,27 +496,30 @@ fn op_dense<F: Fl>(em: &mut Em, x: &Array2<F>, km: Km<F>, ci: &[usize], call: Ca
                 ctx.require(km.entry_ok(k[i][j], &rw[i], &rw[j]), "entry", &class, || format!("K[{},{}] = {} but the kernel function gives {}", i, j, k[i][j], want));
                 ctx.require(beq(k[i][j], k[j][i]), "symmetric", &class, || format!("K[{},{}] = {} but K[{},{}] = {}", i, j, k[i][j], j, i, k[j][i]));
             }
-            if let Km::G(_) = km {
+            // (a bandwidth of exactly 0 divides 0 by 0: outside "any bandwidth", compared with the model only)
+            if matches!(km, Km::G(e) if e.w() != 0.0 && !e.w().is_nan()) {
                 ctx.require(k[i][i] == 1.0, "gaussian_diagonal", &class, || format!("K[{0},{0}] = {1}", i, k[i][i]));
             }
         }
         // positive semidefinite: Gaussian (statement) and linear (theorem); numerically, least Jacobi eigenvalue
-        if finite && n > 0 && n <= 24 && !matches!(km, Km::P(_, _)) {
+        if finite && n > 0 && n <= 24 && !matches!(km, Km::P(_, _)) && !matches!(km, Km::G(e) if !(e.w() > 0.0)) {
             let tr: f64 = (0..n).map(|i| k[i][i].abs()).sum();
             let lmin = jacobi_min_eig(&k);
             ctx.require(lmin >= -(1e-9f64.max(64.0 * F::EPS)) * tr.max(1.0), "positive_semidefinite", &class, || format!("least eigenvalue {} (trace {})", lmin, tr));
         }
         let cols = columns(&kernel, ci);
         oracle_views(ctx, &class, &kernel, &k, ci, &cols, ex);
+        method_kept(ctx, &class, &kernel, &km);
         let sum = kernel.sum().to_vec();
         let diag = kernel.diagonal().to_vec();
         let ut = kernel.to_upper_triangle();
         format!(
-            "ok size={} ns={} nf={} lin={} K={} sum={} diag={} ut={} col={}",
+            "ok size={} ns={} nf={} lin={} meth={} K={} sum={} diag={} ut={} col={}",
             kernel.size(),
             kernel.nsamples(),
             kernel.nfeatures(),
             kernel.is_linear(),
+            enc_method(&kernel.method),
             list2(kf.iter().map(|r| r.iter()), |v| fl(ex, *v)),
             fls(ex, &sum),
             fls(ex, &diag),
@@ -662,7 +705,19 @@ fn op_sparse<F: Fl>(em: &mut Em, x: &Array2<F>, km: Km<F>, k: usize, which: usiz
     let valid = k > 0 && k < n;
     let nb = neighbours(x, k, which);
     if valid && nb.is_none() {
+        // the index cannot be asked (records without features: every linfa-nn index answers `ZeroDimension`), so
+        // the model has no neighbour lists to work from.  The request is inside the quantifier (any record matrix,
+        // 0 < k < n): oracle-only case, the kernel must exist and satisfy the pattern / entry clauses
         em.count("sparse:index_unavailable");
+        let p = x.ncols();
+        let class = format!("sparse{}:{}:{}:p={}", F::T, km.name(), idx_name, p);
+        let op = format!("#sparse0{} m={} k={} n={} p={} idx={} {}", F::T, km.enc(), k, n, p, idx_name, call.enc());
+        em.case_valid(op, &class, |ctx| {
+            let (kernel, _) = build_sparse(x, km, k, which, call);
+            let ok = csr_of(&kernel).map(|c| c.0.len() == n + 1).unwrap_or(false);
+            ctx.require(ok, "sparse_support", &class, || "no CSR matrix of the right size".to_string());
+            String::new()
+        });
         return;
     }
     let nb = nb.unwrap_or_default();
@@ -766,16 +821,18 @@ fn op_sparse<F: Fl>(em: &mut Em, x: &Array2<F>, km: Km<F>, k: usize, which: usiz
         }
         let cols = columns(&kernel, ci);
         oracle_views(ctx, &class, &kernel, &mat, ci, &cols, ex);
+        method_kept(ctx, &class, &kernel, &km);
         let sum = kernel.sum().to_vec();
         let diag = kernel.diagonal().to_vec();
         let ut = kernel.to_upper_triangle();
         let cs = csr_sorted(&csr);
         format!(
-            "ok size={} ns={} nf={} lin={} indptr={} indices={} data={} sum={} diag={} ut={} col={}",
+            "ok size={} ns={} nf={} lin={} meth={} indptr={} indices={} data={} sum={} diag={} ut={} col={}",
             kernel.size(),
             kernel.nsamples(),
             kernel.nfeatures(),
             kernel.is_linear(),
+            enc_method(&kernel.method),
             list(cs.0.iter(), |v| v.to_string()),
             list(cs.1.iter(), |v| v.to_string()),
             fls(ex, &cs.2),
@@ -816,6 +873,16 @@ impl<F: Fl> Crit<F> {
         match self {
             Crit::Num(c) => *c >= 1,
             Crit::Dist(d) => d.is_finite() && d.is_sign_positive(),
+        }
+    }
+    /// thresholds the guard of the present code rejects although they are numbers the quantifier covers: `-0.0` is
+    /// the threshold 0 and `+inf` asks for every merge.  The statement permits rejecting them (what the code does) as
+    /// well as clustering with them (what a guard written with `x < 0` would do), so both answers are written
+    /// `lenient`; an accepted one must still be the right partition
+    fn lenient(&self) -> bool {
+        match self {
+            Crit::Dist(d) => (*d == F::zero() && d.is_sign_negative()) || (d.is_infinite() && d.is_sign_positive()),
+            _ => false,
         }
     }
 }
@@ -935,7 +1002,7 @@ fn op_hier<F: Fl>(em: &mut Em, kernel: &Kernel<F>, ut: &[F], dist: &[F], steps: 
         Crit::Dist(d) => format!("d:{}", d.hx()),
     };
     let op = format!(
-        "hier{} n={} meth={} kernel={} steps={} dis={} crit={} ut={} form={}",
+        "hier{} n={} meth={} kernel={} steps={} dis={} crit={} ut={} dist={} form={}",
         F::T,
         n,
         mname,
@@ -944,10 +1011,12 @@ fn op_hier<F: Fl>(em: &mut Em, kernel: &Kernel<F>, ut: &[F], dist: &[F], steps: 
         list(steps.iter(), |s| s.2.hx()),
         cs,
         list(ut.iter(), |v| v.hx()),
+        list(dist.iter(), |v| v.hx()),
         HFORMS[form]
     );
     let class = format!("hier{}:{}:{}", F::T, mname, if let Crit::Num(_) = crit { "count" } else { "threshold" });
     let valid = crit.valid();
+    let lenient = crit.lenient();
     let body = |ctx: &mut Ctx| {
         let params = match crit {
             Crit::Num(c) => HierarchicalCluster::<F>::default().with_method(method).num_clusters(c),
@@ -972,6 +1041,9 @@ fn op_hier<F: Fl>(em: &mut Em, kernel: &Kernel<F>, ut: &[F], dist: &[F], steps: 
                 if valid {
                     ctx.fail("no_error", &class, format!("valid criterion rejected: {}", e));
                 }
+                if lenient {
+                    return "lenient".to_string();
+                }
                 return match e {
                     linfa_hierarchical::HierarchicalError::InvalidStoppingCondition(_) => "err InvalidStoppingCondition".to_string(),
                     _ => "err other".to_string(),
@@ -986,6 +1058,27 @@ fn op_hier<F: Fl>(em: &mut Em, kernel: &Kernel<F>, ut: &[F], dist: &[F], steps: 
         ids.dedup();
         let nc = ids.len();
         let part = canon(&labels);
+        if lenient {
+            // accepted: then it must be the clustering for the number the threshold is
+            let mut uf = Uf((0..n).collect());
+            let mut rep: Vec<usize> = (0..n).collect();
+            let mut sub: Vec<F> = vec![F::neg_infinity(); n];
+            let d = if let Crit::Dist(d) = crit { d } else { F::zero() };
+            for (a, b, dis, _) in steps.iter() {
+                if *a >= rep.len() || *b >= rep.len() {
+                    break;
+                }
+                let m = dis.max(sub[*a]).max(sub[*b]);
+                if m < d {
+                    uf.union(rep[*a], rep[*b]);
+                }
+                rep.push(rep[*a]);
+                sub.push(m);
+            }
+            let want = uf.partition();
+            ctx.require(part == want, "threshold_merges", &class, || format!("threshold {} accepted: partition {:?}, merges below the threshold give {:?}", d, part, want));
+            return "lenient".to_string();
+        }
         if !valid {
             // outside the quantifier of the property: compared with the model only
             return format!("ok nc={} part={} dist={}", nc, list(part.iter(), |v| v.to_string()), fls(false, dist));
@@ -1083,9 +1176,21 @@ fn gen_method<F: Fl>(rng: &mut Rng, lattice: bool) -> Km<F> {
     match rng.below(8) {
         0 | 1 | 2 => Km::L,
         3 | 4 | 5 => {
-            let e = if lattice { *rng.pick(&[0.5, 1.0, 2.0, 8.0, 0.3, 100.0, 0.0625]) } else { 0.05 + rng.unit() * 10.0 };
+            // "any bandwidth": the everyday range, the small ones (entries underflow towards 0), huge ones, negative
+            // ones (exp(+d/|eps|): still the kernel function, still symmetric with unit diagonal; not PSD), and
+            // rarely exactly 0 (0/0 on the diagonal: outside the statement, compared with the model only)
+            let e = match rng.below(10) {
+                0 => *rng.pick(&[1e-2, 1e-3, 1e-5, 3e-3, 0.02, 0.04]),
+                1 => 10f64.powf(-6.0 + 12.0 * rng.unit()),
+                2 if rng.coin() => -*rng.pick(&[0.5, 2.0, 100.0, 1e-3, 16.0]),
+                2 if rng.chance(1, 3) => 0.0,
+                _ if lattice => *rng.pick(&[0.5, 1.0, 2.0, 8.0, 0.3, 100.0, 0.0625]),
+                _ => 0.05 + rng.unit() * 10.0,
+            };
             Km::G(F::nar(e))
         }
+        // "any constant/degree": the grid of everyday values and, one time in three, reals off the grid
+        _ if rng.chance(1, 3) => Km::P(F::nar((rng.unit() * 6.0 - 3.0) * *rng.pick(&[1.0, 1.0, 100.0])), F::nar(if rng.coin() { rng.below(6) as f64 } else { rng.unit() * 6.0 - 2.0 })),
         _ => Km::P(F::nar(*rng.pick(&[0.0, 1.0, -1.0, 2.5])), F::nar(*rng.pick(&[1.0, 2.0, 3.0, 0.5, -1.0, 2.5]))),
     }
 }
@@ -1111,6 +1216,7 @@ fn gen_crit<F: Fl>(rng: &mut Rng, n: usize, steps: &Steps<F>, dist: &[F]) -> Cri
         let c = match rng.below(6) {
             0 => 1,
             1 => n.max(1),
+            2 if rng.chance(1, 4) => 2 * n + 5 + rng.below(1000),
             2 => n + 1 + rng.below(3),
             3 => n.saturating_sub(1).max(1),
             _ => 1 + rng.below(n.max(1)),
@@ -1120,7 +1226,7 @@ fn gen_crit<F: Fl>(rng: &mut Rng, n: usize, steps: &Steps<F>, dist: &[F]) -> Cri
         let zero = F::zero();
         let d = match rng.below(7) {
             0 => zero,
-            1 => F::nar(20.0),
+            1 => F::nar(*rng.pick(&[20.0, 20.0, 13.9, 1e6, 1e30])),
             2 | 3 if !steps.is_empty() => steps[rng.below(steps.len())].2.max(zero),
             4 if !steps.is_empty() => {
                 let s = steps[rng.below(steps.len())].2;
@@ -1177,6 +1283,9 @@ fn hier_cases<F: Fl>(em: &mut Em, rng: &mut Rng, kernel: &Kernel<F>, desc: &str,
                 em.count(&format!("hier:clustered:form={}", HFORMS[form]));
                 em.count(&format!("hier:clustered:{}", METHODS[mi].1));
                 em.count(&format!("hier:clustered:type=f{}", if F::T.is_empty() { "64" } else { F::T }));
+                if n > 16 {
+                    em.count("hier:clustered:n>16");
+                }
             }
         }
     }
@@ -1231,21 +1340,31 @@ fn rounds<F: Fl>(em: &mut Em, rng: &mut Rng, rounds: usize, nmax: usize, hier_ma
         // dot: keep to values where the products carry no cancellation blow-up (see notes): integral non-negative
         // polynomial degrees; in f32 in addition only kernels that are exact (linear on a lattice) or without
         // sign changes (Gaussian, even degree with a non-negative right-hand side)
+        // the generic reals (scales up to 30) get the f32 treatment in f64 as well: with a signed right-hand side a
+        // product can cancel to far below its terms, and the comparison rule has no handle on the size of the terms
+        let careful = !is64 || style == 4 || matches!(km, Km::P(c, _) if (c.w() * 2.0).fract() != 0.0);
         let km_dot: Km<F> = match km {
-            Km::P(c, d) if d.w().fract() != 0.0 || d.w() < 0.0 => Km::P(c, F::nar(2.0)),
-            Km::P(c, d) if !is64 && d.w() != 2.0 => Km::P(c, F::nar(2.0)),
-            Km::L if !is64 && !(style == 0 || style == 3) => Km::G(F::nar(2.0)),
+            Km::P(c, d) if d.w().fract() != 0.0 || d.w() < 0.0 || d.w() > 3.0 || c.w().abs() > 3.0 => Km::P(if c.w().abs() > 3.0 { F::nar(1.0) } else { c }, F::nar(2.0)),
+            Km::P(c, d) if careful && d.w() != 2.0 => Km::P(c, F::nar(2.0)),
+            Km::L if careful && !(style == 0 || style == 3) => Km::G(F::nar(2.0)),
+            Km::G(e) if !(e.w() > 0.0) => Km::G(F::nar(2.0)),
             m => m,
         };
-        let nonneg = !is64 && !matches!(km_dot, Km::L);
+        let nonneg = careful && !matches!(km_dot, Km::L);
         let r: Array2<F> = gen_rhs(rng, n, nonneg);
-        let rlay = if rng.coin() { 0 } else { rng.below(LAYS.len()) };
+        let rlay = if rng.chance(1, 3) { 0 } else { rng.below(LAYS.len()) };
         op_ddot(em, &x, km_dot, &r, Call::draw(rng), rlay);
         // sparse kernels: a few neighbour counts (boundaries 0, 1, n-1, n included) with every index
-        if p > 0 {
+        // (records without features: no index can be built — the open finding `…zero-feature-records-panic`; kept
+        // to the linear search and the default index)
+        {
             let mut ks: Vec<usize> = vec![1, n.saturating_sub(1), 1 + rng.below(n.max(2) - 1)];
             if big {
                 ks = vec![1 + rng.below(n - 1), 1 + rng.below(6)];
+                // the boundaries of the guard also beyond the leaf size of the trees
+                if rng.coin() {
+                    ks.push(*rng.pick(&[1, n - 1]));
+                }
             }
             if rng.chance(1, 4) {
                 ks.push(*rng.pick(&[0, n, n + 1]));
@@ -1258,6 +1377,9 @@ fn rounds<F: Fl>(em: &mut Em, rng: &mut Rng, rounds: usize, nmax: usize, hier_ma
                 let extra = 3 + rng.below(4);
                 for which in 0..IDX.len() {
                     if which > 0 && !(k > 0 && k < n) {
+                        continue;
+                    }
+                    if p == 0 && !(which == 0 || which == 3) {
                         continue;
                     }
                     if which >= 3 && which != extra && which != 3 + (extra + 1) % 4 && which != dot_which {
@@ -1283,8 +1405,9 @@ fn rounds<F: Fl>(em: &mut Em, rng: &mut Rng, rounds: usize, nmax: usize, hier_ma
             }
         }
         // hierarchical clustering on this kernel (dense, and one sparse variant)
-        if n <= hier_max {
-            let per = if thorough { 3 } else { 2 };
+        // (beyond the small sizes too: one criterion per method on the n = 17.. rounds)
+        if n <= hier_max || (big && n <= 40) {
+            let per = if n > hier_max { 1 } else if thorough { 3 } else { 2 };
             let dense = Kernel::<F>::params().method(km.linfa()).transform(x.view());
             hier_cases(em, rng, &dense, &format!("dense:{}", km.name()), per);
             if p > 0 && n >= 3 && rng.chance(1, 3) {
